@@ -107,11 +107,11 @@ DmNacChanged == IF dm.on THEN [dm EXCEPT !.nac = "old", !.sr = Age(dm.sr)] ELSE 
 (* handles with the same grp are one object or parts of one object (a getter *)
 (* that returns the internal object returns the same object every time, it   *)
 (* is the caller's own object if the setter kept that, and the displacement  *)
-(* and force arrays handed out are the arrays inside the dataset dict): the  *)
-(* caller knows that changing one of them changes the others                 *)
+(* array handed out is the array inside the dataset dict): the caller knows  *)
+(* that changing one of them changes the others                              *)
 ObjKind(c) == CASE c \in {"fc_setter", "fc_getter"} -> "fc"
                 [] c \in {"nac_setter", "nac_getter"} -> "nac"
-                [] c \in {"dataset_setter", "dataset_getter", "displacements_getter", "forces_getter"} -> "ds"
+                [] c \in {"dataset_setter", "dataset_getter", "displacements_getter"} -> "ds"
                 [] c \in {"masses_setter", "masses_getter", "forces_setter"} -> "own"
                 [] OTHER -> c
 FreshGrp(hs) == LET used == {hs[j].grp : j \in 1..Len(hs)}
